@@ -21,7 +21,10 @@ type vImageFile struct {
 	iImageFile
 	fdp      *descriptorpb.FileDescriptorProto
 	fullName bufparse.FullName
+	isImport bool
 }
+
+func (f *vImageFile) IsImport() bool { return f.isImport }
 
 func (f *vImageFile) Path() string                                          { return f.fdp.GetName() }
 func (f *vImageFile) FullName() bufparse.FullName                            { return f.fullName }
